@@ -99,6 +99,15 @@ def neighbour_inputs(k, prev, rng):
     vals = copy.deepcopy(prev)
     changed = False
     for i, (nm, pt) in enumerate(k.signature):
+        if type(pt) in (E.Cell, E.Vec) and isinstance(vals[i], list) and all(isinstance(x, float) for x in vals[i]):
+            # a neighbouring cell / vector: a refinement step or the next grain of the same phase
+            r = rng.random()
+            if r < 0.3:
+                continue
+            d = rng.choice([1e-9, 1e-7, 2e-6, 8e-6, 3e-5])
+            vals[i] = [x * (1 + rng.uniform(-1, 1) * d) for x in vals[i]]
+            changed = True
+            continue
         if isinstance(pt, (E.Real, E.Angle)) and isinstance(vals[i], float):
             r = rng.random()
             if r < 0.4:
@@ -142,6 +151,10 @@ def vary_dtype(args, rng):
     for a in args:
         if isinstance(a, float) and a == int(a) and abs(a) < 2 ** 31 and rng.random() < 0.5:
             a = int(a)
+        elif isinstance(a, list) and a and all(isinstance(x, float) and x == int(x) and abs(x) < 2 ** 31 for x in a) and rng.random() < 0.5:
+            a = [int(x) for x in a]          # e.g. zero strain written as [0, 0, 0, 0, 0, 0]
+        elif isinstance(a, list) and a and all(isinstance(x, float) for x in a) and rng.random() < 0.35:
+            a = np.array(a, float)           # a sequence argument given as the caller's own float64 array
         elif isinstance(a, np.ndarray) and a.dtype == np.float64 and a.size and np.all(a == np.round(a)) and np.abs(a).max() < 2 ** 31 \
                 and rng.random() < 0.5:
             a = a.astype(int)
@@ -212,6 +225,13 @@ class FuncUnit(Unit):
             out['obligations'].append({'name': self.label() + '.symbolic_execution', 'status': 'unknown',
                                        'kind': 'engine', 'backend': '', 'seconds': 0,
                                        'detail': 'outside subset: %s' % e})
+            # the function left the verifier's subset: its contract is still evaluated on the real function (bounded)
+            if getattr(k, 'native_validation', True):
+                n = 4 * (self.nvalid if self.nvalid is not None else (30 if tier == 'quick' else 300))
+                try:
+                    _val, out['native'], _samples = self.validate(k, [], random.Random(seed), n)
+                except Exception as e2:        # noqa
+                    out['notes'].append('runtime contract not evaluated: %r' % (e2,))
             return out
         out['gen_seconds'] = round(time.time() - t0, 3)
         out['paths'] = len(paths)
